@@ -105,6 +105,13 @@ CHECKS = {
         "split over charges keeping each charge's largest, |x - U s V|^2 must equal the discarded weight, the absorb variants must give the same product, and the truncated factors must be valid "
         "with matching bond tables and emptied charges removed.",
    note="Trusted: designed spectra (cross-checked against numpy's dense svd); cutoffs are placed at midpoints between thresholds; latitude: where the rule permits no value, none or only the largest are accepted."),
+ "C06": dict(engine="E-enum", design_ref="DESIGN.md 5 C06",
+   technique="exhaustive enumeration of contractible pairs x axes on the real code, each contracted along every route (direct in 3 modes; align + fuse contracted axes with both fuse strategies + single-pair contraction in 2 modes; free legs fused beforehand in 2 modes) with an exact differential comparison",
+   text="For every pair (a, b, axes) with at least one contracted pair in the bounded universe (abelian and fermionic with even / odd charges, labels and pending signs; independent sparsity and "
+        "block order on the operands, every axis placement and listing order) the direct blockwise result is the reference; the fused and auto strategies must return the same array (rank, charge, "
+        "directions, labels, index tables, values); aligning with align_axes, fusing the contracted axes on both operands (insert and concat) and contracting the single fused pair (both modes) must "
+        "give the same value; fusing an operand's free legs beforehand must give a result on which that leg is still fused and which equals the direct result after unfusing.",
+   note="Trusted: integer tags + harness embedding; blockwise contraction as the differential reference (its absolute correctness is C02/C03's subject)."),
 }
 
 _ALL = ["C%02d" % i for i in range(1, 21)]
